@@ -453,6 +453,8 @@ def enumerate_prefixes(body, mode, params, shard, depth):
             continue
         except OracleFailure:
             pass  # the worker that owns this prefix will report it
+        except BaseException:
+            pass  # likewise: the code under test blew up on this prefix; the owning worker reports and replays it
         finally:
             _CURRENT[0] = None
         if ctx.need:
